@@ -26,6 +26,13 @@ def gensetEnginePower (ηgen inv : Rat → Rat) (ratedGen P : Rat) : Rat := inFr
 gearbox's own load (relative to the gearbox's rating, after D35). -/
 def gearedEnginePower (ηgb : Rat → Rat) (ratedGB P : Rat) : Rat := P / effHat ηgb (load ratedGB P)
 
+/-- Engine-side power for a shaft-side power of either sign (`MainEngineWithGearBox….get_engine_run_point_from_power_out_kw` since
+D136): the gearbox's own bidirectional conversion; for `0 ≤ P` it is `gearedEnginePower`. -/
+def gearedEnginePowerBi (ηgb inv : Rat → Rat) (ratedGB P : Rat) : Rat := inFromOut ηgb inv ratedGB P
+
+/-- As found (D136): reverse power was divided by the efficiency like forward power. -/
+def gearedEnginePowerReverseLegacy (ηgb : Rat → Rat) (ratedGB P : Rat) : Rat := P / effHat ηgb (load ratedGB P)
+
 /-- As found (D35) the gearbox characteristic was read at the load relative to the main engine's rating. -/
 def gearedEnginePowerLegacy (ηgb : Rat → Rat) (ratedME P : Rat) : Rat := P / effHat ηgb (load ratedME P)
 
